@@ -703,33 +703,36 @@ func ruleNames(r *Report, which []string) {
 	for _, w := range which {
 		switch w {
 		case "sstable-format", "wal-format":
-			fk := map[string]string{"sstable-format": "simpledb.executeFlush", "wal-format": "wal.setupNextWriter"}[w]
-			fn := r.NeedFunc(rule, fk)
-			if fn == nil {
-				continue
+			// anchored semantically: every fmt.Sprintf of the package whose constant format names an age-ordered
+			// artefact (table directory / WAL file), wherever a refactoring puts it
+			pkg, marker := "simpledb", "sstable"
+			if w == "wal-format" {
+				pkg, marker = "wal", ".wal"
 			}
-			sp := CallsIn(fn, Keys("fmt.Sprintf"))
-			key := rule + "/" + fk + "/fmt.Sprintf"
-			if len(sp) == 0 {
-				r.Missing(rule, key, "no fmt.Sprintf in "+fk)
-				continue
+			key := rule + "/" + pkg + "/" + w
+			found := 0
+			for _, fn := range p.FuncsOfPkg(pkg) {
+				for _, s := range CallsIn(fn, Keys("fmt.Sprintf")) {
+					f, ok := stringConst(s.Call().Common().Args[0])
+					if !ok || !strings.Contains(f, marker) || !strings.Contains(f, "%") {
+						continue
+					}
+					found++
+					r.Saw(fn)
+					m := fixedWidthVerb.FindStringSubmatch(f)
+					width := 0
+					if m != nil {
+						fmt.Sscanf(m[1], "%d", &width)
+					}
+					if m == nil || width < 6 {
+						r.Bad(rule, key, s.Pos(), fmt.Sprintf("format %q is not literal text plus one zero-padded fixed-width decimal verb (%%0Nd, N>=6): names stop sorting in age order", f))
+					} else {
+						r.OK(rule, key, s.Pos(), fmt.Sprintf("format %q", f))
+					}
+				}
 			}
-			for _, s := range sp {
-				f, ok := stringConst(s.Call().Common().Args[0])
-				if !ok {
-					r.Unk(rule, key, s.Pos(), "format string is not a constant")
-					continue
-				}
-				m := fixedWidthVerb.FindStringSubmatch(f)
-				width := 0
-				if m != nil {
-					fmt.Sscanf(m[1], "%d", &width)
-				}
-				if m == nil || width < 6 {
-					r.Bad(rule, key, s.Pos(), fmt.Sprintf("format %q is not literal text plus one zero-padded fixed-width decimal verb (%%0Nd, N>=6): names stop sorting in age order", f))
-				} else {
-					r.OK(rule, key, s.Pos(), fmt.Sprintf("format %q", f))
-				}
+			if found == 0 {
+				r.Missing(rule, key, "no fmt.Sprintf with a constant format containing "+marker+" in package "+pkg)
 			}
 		case "sorted-recovery", "sorted-compaction", "sorted-replay":
 			fk := map[string]string{"sorted-recovery": "simpledb.DB.reconstructSSTables", "sorted-compaction": "simpledb.executeCompaction", "sorted-replay": "wal.Replayer.Replay"}[w]
